@@ -278,6 +278,84 @@ def run_ffdir(chk, ask, Gen, inject, FAULTS, dump_ff, load_ff, repr_j, pending):
             elif not ok:
                 errs.append('ForceField(%r) on a directory with one .ff file declaring one link A-B: %r' % (dn, got))
             chk.case('ffdir-magic-%d' % j, 'ForceField(<tmp>/%s)' % dn, str(got), None, errs, True)
+        # ---- find_force_fields(directory[, force_fields]): one force field per sub-directory that has force
+        #      field files, in os.listdir order; a name already in the dictionary is updated in place ----
+        from vermouth.forcefield import find_force_fields
+        from vermouth.ffinput import read_ff
+        fcases = []
+        for i in range(400 if chk.thorough else 40):
+            top = os.path.join(base, 'top%d' % i)
+            os.mkdir(top)
+            subs = rng.sample(['martini', 'aa', 'cg', 'x.y', 'Z'], rng.randint(1, 3))
+            fault = None
+            for sname in subs:
+                os.mkdir(os.path.join(top, sname))
+                for fn in rng.sample(FF_NAMES, rng.randint(1, 2)):
+                    g = Gen(rng)
+                    if rng.random() < 0.4:
+                        g.variables_section()
+                    g.build()
+                    text = g.text()
+                    if fault is None and rng.random() < 0.08:
+                        bad = inject(g, 'unknown_section', rng)
+                        if bad is not None:
+                            text, fault = bad, 'file'
+                    open(os.path.join(top, sname, fn), 'w').write('\n'.join(text) + '\n')
+            if rng.random() < 0.5:
+                os.mkdir(os.path.join(top, 'empty'))
+                open(os.path.join(top, 'empty', 'readme.txt'), 'w').write('nothing\n')
+            if rng.random() < 0.5:
+                open(os.path.join(top, 'stray.ff'), 'w').write('[ link ]\n[ bonds ]\nS1 S2 1\n')
+            pre = []
+            if rng.random() < 0.5:
+                g = Gen(rng).build()
+                pre.append([rng.choice(subs + ['unrelated']), g.text()])
+            fcases.append((top, pre, fault))
+        reqs, listings = [], []
+        for top, pre, fault in fcases:
+            enum = Enumeration(None)
+            tl = []
+            for name in os.listdir(top):
+                p = os.path.join(top, name)
+                if os.path.isdir(p):
+                    tl.append([name, 1, [[e.name, 1 if e.is_dir() else 0, [] if e.is_dir() else open(e.path).read().split('\n')]
+                                         for e in enum.entries(p)]])
+                else:
+                    tl.append([name, 0])
+            reqs.append(line('findffs', pre, tl))
+            listings.append(tl)
+        for ci, ((top, pre, fault), tl, ln, mo) in enumerate(zip(fcases, listings, reqs, ask(reqs))):
+            given = {}
+            for name, text in pre:
+                given[name] = ForceField(name=name)
+                read_ff(text, given[name])
+            before = {k: len(v.links) for k, v in given.items()}
+            try:
+                out = find_force_fields(top, dict(given)) if pre else find_force_fields(top)
+                im = enc([[k, [dump_ff(v), [[a, repr_j(b)] for a, b in v.variables.items()]]] for k, v in out.items()])
+            except Exception as e:
+                out, im = None, 'error'
+            errs = []
+            if out is None:
+                if fault is None:
+                    errs.append('well-formed force field library rejected')
+            else:
+                if fault is not None:
+                    errs.append('a library with a malformed file was loaded')
+                want = list(given) + [t[0] for t in tl if t[1] == 1 and t[0] not in given
+                                      and any(x[0].endswith(('.ff', '.rtp', '.bib')) and not x[0].startswith('.') for x in t[2])]
+                if list(out) != want:
+                    errs.append('force fields %r, sub-directories with force field files (after those given) %r' % (list(out), want))
+                for k, v in out.items():
+                    if v.name != k:
+                        errs.append('force field %r registered under %r' % (v.name, k))
+                for k, n0 in before.items():
+                    if k in out and out[k] is given[k] and len(out[k].links) < n0:
+                        errs.append('updating %r lost links' % k)
+                if any(k in [t[0] for t in tl if t[1] == 1] for k in given):
+                    chk.count('findffs_updated_existing')
+            chk.count('findffs_' + ('loaded' if out is not None else 'rejected'))
+            chk.case('findffs-%d' % ci, ln, im, mo, errs, True)
     finally:
         os.scandir = _REAL_SCANDIR
         shutil.rmtree(base, ignore_errors=True)
